@@ -454,6 +454,20 @@ var c05Kinds = []c05Kind{
 	{"upload-file-uploads-subfolder", []int{ref.PUploadFile}, func(x c05Ctx) ref.Tx {
 		return ref.Tx{Type: ref.TUploadFile, Fields: []ref.Fld{ref.FS(ref.FFileName, "new.txt"), ref.F(ref.FFilePath, ref.PathBytes("Uploads", "sub")), ref.F32(ref.FTransferSize, 100)}}
 	}, ""},
+	// the server keeps a file's comment, type and creator in .info_<name> next to it, its partial data in <name>.incomplete:
+	// creating an entry under such a name changes the other file's comment (type, data) - the set-comment privilege's effect
+	{"upload-file-named-like-an-information-fork", []int{ref.PUploadFile, ref.PSetFileComment}, func(x c05Ctx) ref.Tx {
+		return ref.Tx{Type: ref.TUploadFile, Fields: []ref.Fld{ref.FS(ref.FFileName, ".info_f.txt"), ref.F(ref.FFilePath, ref.PathBytes("Uploads")), ref.F32(ref.FTransferSize, 100)}}
+	}, ""},
+	{"upload-folder-named-like-an-information-fork", []int{ref.PUploadFolder, ref.PSetFileComment}, func(x c05Ctx) ref.Tx {
+		return ref.Tx{Type: ref.TUploadFldr, Fields: []ref.Fld{ref.FS(ref.FFileName, ".info_f.txt"), ref.F(ref.FFilePath, ref.PathBytes("Uploads")), ref.F32(ref.FTransferSize, 100), ref.F16(ref.FFolderItemCount, 1)}}
+	}, ""},
+	{"rename-file-to-an-information-fork-name", []int{ref.PRenameFile, ref.PSetFileComment}, func(x c05Ctx) ref.Tx {
+		return ref.Tx{Type: ref.TSetFileInfo, Fields: []ref.Fld{ref.FS(ref.FFileName, "t.txt"), ref.FS(ref.FFileNewName, ".info_f.txt")}}
+	}, ""},
+	{"create-folder-named-like-an-information-fork", []int{ref.PCreateFolder, ref.PSetFileComment}, func(x c05Ctx) ref.Tx {
+		return ref.Tx{Type: ref.TNewFolder, Fields: []ref.Fld{ref.FS(ref.FFileName, ".info_f.txt")}}
+	}, ""},
 	// a folder download sends what a file list would show, item by item
 	{"download-folder-drop-box", []int{ref.PDownloadFolder, ref.PViewDropBoxes}, func(x c05Ctx) ref.Tx {
 		return ref.Tx{Type: ref.TDownloadFldr, Fields: []ref.Fld{ref.FS(ref.FFileName, "Drop Box")}}
